@@ -33,7 +33,9 @@ func init() {
 		for round := 0; round < rounds && !expired(); round++ {
 			prepare := round%2 == 1
 			db, rec := openRel(&gorm.Config{PrepareStmt: prepare})
-			seedRel(db, rng, 3)
+			if err := c18Safely(func() error { seedRel(db, rng, 3); return nil }); err != nil {
+				continue // the bind suite reports what is wrong with the root handle
+			}
 			rec.Reset()
 			for oi, op := range ops {
 				n++
@@ -54,12 +56,15 @@ func init() {
 				var run func(tx *gorm.DB, d int) error
 				run = func(tx *gorm.DB, d int) error {
 					if d == 0 {
-						return op.Run(tx, rng)
+						return c18Safely(func() error { return op.Run(tx, rng) })
 					}
 					return tx.Transaction(func(tx2 *gorm.DB) error { return run(tx2, d-1) })
 				}
 				rec.Reset()
 				err := run(h, depth)
+				if np, ok := err.(c18NilCtxPanic); ok {
+					r.Violate(Violation{Kind: "e2e", Suite: "ctx", Input: map[string]interface{}{"op": op.Name, "prepareStmt": prepare, "txDepth": depth, "via": via}, Observed: np.Error(), Expected: "every driver call carries the operation's context"})
+				}
 				evs := rec.Snapshot()
 				in := map[string]interface{}{"op": op.Name, "prepareStmt": prepare, "txDepth": depth, "via": via}
 				withCtx := 0
